@@ -138,5 +138,43 @@ CHECKS["C02"] = {
     "note": "trusted: TLC; the TLA+ grammar itself (cross-checked against crypto/x509, which must accept every RSA/NIST certificate and read the same "
             "fields, and against gopki's own ReadPem/WritePem round trip); exploration level - the catalogue is finite classes plus seeded samples",
 }
+_GEN_NOTE = ("trusted: TLC; the TLA+ grammar (DER.tla/X509.tla) and meaning modules; the case generators (python) which write both the configuration "
+             "text and its abstract form (the tag) - a mismatch between the two shows as an alarm on the unchanged tree, never as a miss of a correct "
+             "implementation; exploration level: finite classes enumerated, seeded samples beyond")
+CHECKS["C03"] = {
+    "engine": "tlc-spec", "category": "exploration", "design_ref": "6/C03, 3 (Names.tla)",
+    "technique": "Names.tla (documented subject grammar -> expected RDN sequence) + TLA+ certificate decoder; every generated certificate trace-validated by TLC",
+    "text": "Abstract subjects (key = one of the nine short names or a dotted OID incl. arcs > 16383; value classes ASCII, inner spaces, punctuation, "
+            "characters that force UTF8String, Latin-1, CJK, astral plane, 64/200 characters) are rendered to the KEY=value string; with no profile, a "
+            "profile without subjectAttributes and a profile listing exactly the attributes; configured serials up to 2^63-1 and unique ids of 1..300 "
+            "bytes. TLC decodes the produced certificate and compares subject RDNs (reverse order, single-valued, UTF-8 bytes, string type), serial "
+            "content octets and unique ids; unconfigured serials must be pairwise distinct over the batch.",
+    "note": _GEN_NOTE,
+}
+CHECKS["C04"] = {
+    "engine": "tlc-spec", "category": "exploration", "design_ref": "6/C04, 3 (Calendar.tla)",
+    "technique": "Calendar.tla (Gregorian arithmetic, AddDate normalisation and clamping, zone shift) + ConfigModel!ValidityComplaints as oracle over decoded certificates",
+    "text": "Every month/day of leap and non-leap years and the years around the UTCTime/GeneralizedTime boundary as from and until, the duration grid "
+            "(years x months x days, pairwise different), the 7x7 combinations of validity shapes in certificate and profile, under seven fixed-offset "
+            "local zones from -12:00 to +14:00. notBefore without `from` must lie between the clock readings around the run.",
+    "note": _GEN_NOTE + "; zones are fixed offsets (DST rule changes are not modelled)",
+}
+CHECKS["C05"] = {
+    "engine": "tlc-spec", "category": "exploration", "design_ref": "6/C05, 3 (ConfigModel.tla)",
+    "technique": "ConfigModel.tla algorithm tables and defaults compared by TLC with the decoded SubjectPublicKeyInfo / signature identifiers; key shape from the independent projection",
+    "text": "All 14 keyAlgorithm names x the fitting signatureAlgorithm names and 'omitted', for roots and for subordinates under P-256, RSA-1024 and "
+            "brainpoolP384r1 issuers (quick: without generating RSA-4096/8192 keys). The generated key must be of the named modulus length / on the named "
+            "curve (own math/big arithmetic for brainpool), the PRIVATE KEY block must match the certificate, the SPKI must name algorithm and curve, and "
+            "the signature identifier must be the configured one or SHA-256 with the entity's key type.",
+    "note": _GEN_NOTE,
+}
+CHECKS["C06"] = {
+    "engine": "tlc-spec", "category": "exploration", "design_ref": "6/C06, 3 (ConfigModel.tla, Merge.tla)",
+    "technique": "ConfigModel!EffectiveExts (= Merge!MergeSpec over abstract extension records) compared by TLC with the decoded extension list: OID, critical, raw bytes, order",
+    "text": "Exhaustive: 11 kinds x critical {true,false,omitted} x raw {!null, !empty, !binary of 1..4096 bytes incl. 767/768/769; 65535/65536 in thorough}; "
+            "unique ids as raw forms; seeded extension lists of 0..12 entries with repeated kinds; seeded profile/certificate pairs with optional, override "
+            "and content-less profile entries (where the effective list keeps a content-less entry the run must fail).",
+    "note": _GEN_NOTE,
+}
 for e in ENGINES:
     e["serves_properties"] = sorted(CHECKS)
